@@ -1066,7 +1066,36 @@ func (eng *Engine) runReplayTest(pkgDir, test string) (string, error) {
 	}
 	tf := filepath.Join(dir, "zz_verif_replay_test.go")
 	os.WriteFile(tf, []byte(test), 0o644)
-	ov := map[string]any{"Replace": map[string]string{filepath.Join(pkgDir, "zz_verif_replay_test.go"): tf}}
+	repl := map[string]string{filepath.Join(pkgDir, "zz_verif_replay_test.go"): tf}
+	// the package's own test files are replaced by empty ones: only the injected test runs, and test
+	// set-up that needs resources absent from the sandbox (font caches in html/layout, html/document)
+	// cannot abort it. Non-test files are untouched: the code under test is the code of the tree.
+	if ents, err := os.ReadDir(pkgDir); err == nil {
+		for i, e := range ents {
+			n := e.Name()
+			if e.IsDir() || !strings.HasSuffix(n, "_test.go") || n == "zz_verif_replay_test.go" {
+				continue
+			}
+			data, err := os.ReadFile(filepath.Join(pkgDir, n))
+			if err != nil {
+				continue
+			}
+			pkgClause := ""
+			for _, ln := range strings.Split(string(data), "\n") {
+				if t := strings.TrimSpace(ln); strings.HasPrefix(t, "package ") {
+					pkgClause = strings.Fields(t)[0] + " " + strings.Fields(t)[1]
+					break
+				}
+			}
+			if pkgClause == "" {
+				continue
+			}
+			stub := filepath.Join(dir, fmt.Sprintf("stub%d_test.go", i))
+			os.WriteFile(stub, []byte(pkgClause+"\n"), 0o644)
+			repl[filepath.Join(pkgDir, n)] = stub
+		}
+	}
+	ov := map[string]any{"Replace": repl}
 	ovData, _ := json.Marshal(ov)
 	ovf := filepath.Join(dir, "overlay.json")
 	os.WriteFile(ovf, ovData, 0o644)
